@@ -142,7 +142,7 @@ func verifyUnit(w *World, u *Unit, opt Options) *UnitResult {
 	}
 	var wg sync.WaitGroup
 	work := make(chan *Obligation)
-	for k := 0; k < 8; k++ {
+	for k := 0; k < 6; k++ {
 		wg.Add(1)
 		go func() {
 			defer wg.Done()
@@ -150,6 +150,14 @@ func verifyUnit(w *World, u *Unit, opt Options) *UnitResult {
 				q := ex.queryFor(ob)
 				ob.QueryBytes = len(q)
 				ob.Result = solve(q, fmt.Sprintf("%s.o%d", sanitize(u.Name), ob.Index), opt.TimeoutMs, opt.Thorough, true)
+				if ob.Result.Status == "timeout" || ob.Result.Status == "unknown" {
+					// slow queries are the unstable ones: one more attempt with a longer limit before giving up
+					r2 := solve(q, fmt.Sprintf("%s.r%d", sanitize(u.Name), ob.Index), 3*opt.TimeoutMs, opt.Thorough, true)
+					if r2.Status == "unsat" || r2.Status == "sat" {
+						r2.Retried = true
+						ob.Result = r2
+					}
+				}
 				if ob.Result.Status != "unsat" && ob.Result.Status != "sat" && ob.Result.Status != "unsat-single" {
 					// no verdict: look for a candidate counterexample in a weakened query
 					mr := solve(modelQuery(q), fmt.Sprintf("%s.m%d", sanitize(u.Name), ob.Index), opt.TimeoutMs, false, true)
